@@ -259,6 +259,10 @@ func (nb *nameBuilder) Add(b []byte) (offs, length uint16) {
 	if idx, ok := nb.idx[key]; ok {
 		return idx, uint16(len(b))
 	}
+	if len(nb.data) > 0xFFFF || len(b) > 0xFFFF {
+		// offsets and lengths are stored in 16 bits
+		panic("name: too much string data")
+	}
 	idx := uint16(len(nb.data))
 	nb.idx[key] = idx
 	nb.data = append(nb.data, b...)
